@@ -354,10 +354,7 @@ def buildStart (w : KWorld) (cf : Path) (versions : List (String × Json)) (fail
 /-- a build once the old cache (possibly empty) has been read -/
 def buildGo (w : KWorld) (cf : Path) (buildName : String) (versions : List (String × Json))
     (root : Prog) (failFiles : List Path) (failSubs : List H) (abort : Nat) (old : CacheRec) : KOut :=
-  let oldRec := old.toRec
-  let fs0 := Spec.preClean w.fs cf oldRec
-  let sp0 : SpecSt := { fs := fs0, cacheFile := cf, dirSize := w.dirSize, clock := w.clock,
-                        failFiles := failFiles, failSubs := failSubs }
+  let sp0 : SpecSt := (buildStart w cf versions failFiles failSubs old []).sp
   let rolledBack : FS := Spec.mkdirs w.fs (old.createdDirs.mergeSort (fun a b => a.length ≤ b.length))
   match (if abort = 1 then .error .other else Spec.dirsToMake (Spec.visible sp0) cf [] cf.dropLast) with
   | .error e => { res := .error (.os e), world := { w with fs := rolledBack } }
